@@ -3,6 +3,12 @@
 
 package core
 
+import (
+	"com.tuntun.rangers/node/src/common"
+	"com.tuntun.rangers/node/src/middleware/types"
+	"com.tuntun.rangers/node/src/storage/account"
+)
+
 // Verification hooks (build tag "verif" only).
 
 // VerifResetChain forgets the chain singletons so that InitCore builds them again from the
@@ -18,4 +24,11 @@ func VerifResetChain() {
 // VerifGroupChainRemoveLast removes the last group exactly as the group fork switch does.
 func VerifGroupChainRemoveLast() bool {
 	return groupChainImpl.remove(groupChainImpl.lastGroup)
+}
+
+// VerifExecuteBlock runs the block executor exactly as block verification does, on a
+// caller-supplied state object, and returns everything it produces (receipts keep their
+// message text, which is not part of the stored receipt).
+func VerifExecuteBlock(state *account.AccountDB, block *types.Block, situation string) (common.Hash, []common.Hash, []*types.Transaction, []*types.Receipt) {
+	return newVMExecutor(state, block, situation).Execute()
 }
